@@ -54,6 +54,12 @@ int main(void)
 	printf("def RS2M_MAX_M %d\n", OF_REED_SOLOMON_2_M_MAX_M);
 	printf("def LDPC_MAX_K %d\n", OF_LDPC_STAIRCASE_MAX_NB_SOURCE_SYMBOLS_DEFAULT);
 	printf("def LDPC_MAX_N %d\n", OF_LDPC_STAIRCASE_MAX_NB_ENCODING_SYMBOLS_DEFAULT);
-	printf("str RS_POLY %s\n", of_rs_allPp[GF_BITS]);
+	/* the polynomial table is dumped as text whatever its element type is (strings of coefficients in the pinned source) */
+	{
+		char polybuf[80];
+#define POLY_FMT(x) _Generic((x), char *: "%s", const char *: "%s", unsigned long: "int:0x%lx", long: "int:0x%lx", unsigned long long: "int:0x%llx", long long: "int:0x%llx", default: "int:0x%x")
+		snprintf(polybuf, sizeof polybuf, POLY_FMT(of_rs_allPp[GF_BITS]), of_rs_allPp[GF_BITS]);
+		printf("str RS_POLY %s\n", polybuf);
+	}
 	return 0;
 }
